@@ -177,8 +177,13 @@ pub fn hcalc_decomp_small(s: &mut Src) -> R {
     let n = s.small(1, 6) as usize;
     let mut e = vec![0i64; m * n];
     for x in e.iter_mut() { let k = s.small(-8, 8); *x = if k.abs() > 2 { 0 } else { k }; }
+    // explicitly stored zeros (they arise from every subtraction): z is added and subtracted again at up to three positions that are zero in a
+    let mut zs: Vec<(usize, usize, i64)> = vec![];
+    for _ in 0..3 { let (i, j, on) = (s.small(0, 5) as usize, s.small(0, 5) as usize, s.small(0, 2)); if on == 0 && i < m && j < n && e[i * n + j] == 0 && !zs.iter().any(|t| t.0 == i && t.1 == j) { zs.push((i, j, 1)); } }
     reach!();
-    let a = SpMat::from_dense_data((m, n), e.clone());
+    let a0 = SpMat::from_dense_data((m, n), e.clone());
+    let a = if zs.is_empty() { a0 } else { let z = SpMat::from_entries((m, n), zs.clone()); &(&a0 + &z) - &z };
+    ob!(a.clone().into_dense() == SpMat::from_dense_data((m, n), e.clone()).into_dense(), "harness::stored-zeros-do-not-change-the-matrix");
     let (p, q, blocks) = dir_sum_decomp(a.clone());
     let b = a.permute(p.view(), q.view()).into_dense();
     let (mut r0, mut c0) = (0usize, 0usize);
@@ -198,7 +203,8 @@ pub fn hcalc_decomp_small(s: &mut Src) -> R {
     let nonempty: Vec<usize> = (0..n).filter(|&j| (0..m).any(|i| e[i * n + j] != 0)).collect();
     let mut roots: Vec<usize> = nonempty.iter().map(|&j| find(&mut comp, j)).collect(); roots.sort(); roots.dedup();
     let nb = blocks.iter().filter(|b| !b.is_zero()).count();
-    if !nonempty.is_empty() { ob!(nb == roots.len(), "dir_sum_decomp::blocks==connected-components"); }
+    // stored zeros may legitimately glue components together (the splitting goes by the stored pattern): then only "not finer than the truth"
+    if !nonempty.is_empty() { if zs.is_empty() { ob!(nb == roots.len(), "dir_sum_decomp::blocks==connected-components"); } else { ob!(nb <= roots.len(), "dir_sum_decomp::blocks<=connected-components(stored-zeros)"); } }
     Ok(())
 }
 
